@@ -96,6 +96,11 @@ CHECKS = {
         text="Scripts over 3 endpoints (IPv4/IPv6), an explicit and a cyclic eventgroup, including repeated subscribes, unsubscribes of non-members and refused subscriptions (0 or 2 endpoints, unknown eventgroup); per step group the multiset of decoded notifications (destination, event, payload) must equal the reference (initial notification per accepted subscribe, explicit rounds to exactly the current subscribers, complete cyclic rounds), with header fields and per-destination session ids checked on every message.",
         note="Trusted: wire.py, virtual loop, reference model. Steps sharing an iteration with a round: issue-time and send-time state both accepted. The cyclic schedule itself is not fixed by the statement.",
     ),
+    "C04": dict(
+        technique="property-based testing / fault injection on a deterministic virtual-time event loop: two unmodified SD stacks over a simulated network, Hypothesis timing configurations and disturbance scripts (stop/start, crash/restart, loss/duplication/delay windows) placed relative to pending timers, bounded-time convergence oracle; deterministic single-disturbance sweep",
+        text="An offering stack and a watching/auto-subscribing stack run on one virtual loop and exchange real datagrams through a simulated network; generated scripts of graceful stop/start, crash/restart (fresh protocol object, so reboot evidence is real) and fault windows (drop/duplicate/delay per datagram) are placed by delay or relative to the pending timers of either stack. One bound after the last disturbance, and again one bound later, the watcher's listener must say 'offered' iff the offerer is offering, and the offerer's listener 'subscribed' iff it offers and the watcher runs. A sweep places each single disturbance at -4RES/-RES/4/+RES/4/+4RES around the first pending timers at several phases.",
+        note="Trusted: simulated network (no own-multicast loop-back), virtual loop, the bound formula with its deliberate slack. Infinite-TTL family restricted as the statement says (lossless, crash followed by restart, disturbances one bound apart).",
+    ),
 }
 ALL = ["C%02d" % i for i in range(1, 21)]
 NOT_APPLICABLE = {p: "check not built yet in this revision (in progress); the technique applies" for p in ALL if p not in CHECKS}
